@@ -159,6 +159,7 @@ def gen_case(run_seed: int, tier: str, index: int = 0) -> dict:
         "preempt_points": (sorted(r.sample(range(1, 4000), r.choice([1, 2, 3]))) if r.random() < 0.15 else None),
         "hide_fileno": r.random() < 0.4,
         "hide_cfr": r.random() < 0.3,
+        "cfr_cap": st.rng("buggify-cfr").choice([None, None, None, 1, 5, 64, 1000]),
         "chunk": r.choice([None, 16, 64]),
     }
     case = {
@@ -252,6 +253,7 @@ def _run(case: dict, root: str, res: dict) -> None:
     largest = max([len(p) for p in world.payloads] or [0])
     acct.bound = options["max_in_flight_bytes"] + largest
     seam = fsseam.FsSeam(sim_root, sched=sched, hide_fileno=case["sim"].get("hide_fileno", False), hide_copy_file_range=case["sim"].get("hide_cfr", False))
+    seam.cfr_cap = case["sim"].get("cfr_cap")
     faults = case.get("faults", {})
     cb = None
     if options.get("callback"):
@@ -461,7 +463,7 @@ def shrink_candidates(case: dict, violation: dict):
         c.pop("graph_parents", None)
         c["schedule"] = None
         yield c
-    for key, val in (("preempt_p", 0.0), ("preempt_points", None), ("spurious", 0.0), ("hide_fileno", False), ("hide_cfr", False), ("chunk", None), ("stickiness", 0.0)):
+    for key, val in (("preempt_p", 0.0), ("preempt_points", None), ("spurious", 0.0), ("hide_fileno", False), ("hide_cfr", False), ("chunk", None), ("stickiness", 0.0), ("cfr_cap", None)):
         if base["sim"].get(key) != val:
             c = copy.deepcopy(base)
             c["sim"][key] = val
